@@ -59,17 +59,13 @@ func fmapSeqIssues(rs *Resid, fn *ast.FuncDecl) []sideIssue {
 		}
 		return true
 	})
-	// f once per iteration on the range value
-	val := ""
-	if id, ok := l.loop.Value.(*ast.Ident); ok {
-		val = id.Name
-	}
+	// f once per iteration on the range value (or on the ranged operand indexed with the range key)
 	cs := callsOf(l.loop.Body, f)
 	if len(cs) != 1 || len(callsOf(fn.Body, f)) != 1 {
 		iss(l.loop, "call-count", "f is called %d times per element (expected exactly once, inside the loop only)", len(cs))
 	}
 	for _, c := range cs {
-		if len(c.Args) != 1 || canon(c.Args[0]) != val {
+		if len(c.Args) != 1 || !isCurrentElem(l.loop, c.Args[0]) {
 			iss(c, "call-arg", "calls %s, not f on the current element", rs.src(c))
 		}
 	}
@@ -175,7 +171,7 @@ func joinSliceIssues(rs *Resid, fn *ast.FuncDecl) []sideIssue {
 			if canon(rng.X) != L {
 				iss(rng, "wrong-operand", "appends while ranging over %s instead of the list of lists", rs.src(rng.X))
 			}
-			if canon(as.Lhs[0]) != res || len(c.Args) != 2 || canon(c.Args[0]) != res || canon(c.Args[1]) != val || !c.Ellipsis.IsValid() {
+			if canon(as.Lhs[0]) != res || len(c.Args) != 2 || canon(c.Args[0]) != res || !isCurrentElem(rng, c.Args[1]) || !c.Ellipsis.IsValid() {
 				iss(as, "append-what", "does `%s` instead of %s = append(%s, %s...)", rs.src(as), res, res, val)
 			}
 			for _, g := range guardsOf(fn.Body, as) {
@@ -203,6 +199,19 @@ func joinSliceIssues(rs *Resid, fn *ast.FuncDecl) []sideIssue {
 		out = append(out, writesThroughRoots(s, nil)...)
 	}
 	return out
+}
+
+// isCurrentElem: e denotes the element the loop is at — the range value, or the ranged operand indexed with the range key.
+func isCurrentElem(rng *ast.RangeStmt, e ast.Expr) bool {
+	if id, ok := rng.Value.(*ast.Ident); ok && id.Name != "_" && canon(e) == id.Name {
+		return true
+	}
+	if ix, ok := unparen(e).(*ast.IndexExpr); ok {
+		if k, ok := rng.Key.(*ast.Ident); ok && k.Name != "_" && canon(ix.Index) == k.Name && canon(ix.X) == canon(rng.X) {
+			return true
+		}
+	}
+	return false
 }
 
 func joinStringsIssues(rs *Resid, fn *ast.FuncDecl) []sideIssue {
